@@ -510,6 +510,12 @@ def prove(hyps, goal, rlimit=None, want_model=True, use_cvc5=True, recheck=False
             # between the two z3 attempts: rational-function normaliser for equalities (denominators discharged by z3)
             v = _try_field(hyps, goal, t0, exact)
             if v is not None: return v
+            light = _light(hyps)
+            if len(light) < len(hyps):
+                sl = z3.Solver(); sl.set('timeout', 4000)
+                sl.add(*purify(list(GLOBAL_FACTS) + light + _light(ax) + [z3.Not(goal)]))
+                if sl.check() == z3.unsat:
+                    return Verdict('proved', 'z3(light)', time.time() - t0, exact=exact)
             budget = PROVE_TIMEOUT_MS
         s = z3.Solver()
         s.set('rlimit', rlimit or 8_000_000); s.set('timeout', budget)
@@ -566,6 +572,22 @@ def purify(terms):
     return [tr(t) for t in terms]
 
 
+def _size(t, cap=400):
+    seen = set(); stack = [t]
+    while stack:
+        u = stack.pop()
+        if u.get_id() in seen: continue
+        seen.add(u.get_id())
+        if len(seen) > cap: return cap + 1
+        stack.extend(u.children())
+    return len(seen)
+
+
+def _light(hyps, cap=400):
+    """the hypotheses whose term DAG is small: dropping hypotheses only weakens the antecedent, so a proof from them stands"""
+    return [h for h in hyps if _size(h, cap) <= cap]
+
+
 def _zero_vars(hyps):
     """variables that the positive equality hypotheses force to zero (e.g. `0 == g00*g10` with g00 > 0): decided by z3, used to
     specialise a goal before the rational-function normaliser (which cannot use hypotheses) sees it"""
@@ -596,7 +618,12 @@ def _try_field(hyps, goal, t0, exact):
     if not ok:
         if os.environ.get('PVC_DEBUG_FIELD'): print('FIELD: identity not shown:', info, file=sys.stderr)
         return None
+    light = _light(hyps)
     for den in info:
+        # first with the small hypotheses only, uninterpreted applications abstracted to constants (sound for unsat)
+        s1 = z3.Solver(); s1.set('timeout', 4000)
+        s1.add(*purify(list(GLOBAL_FACTS) + light + [den == 0]))
+        if s1.check() == z3.unsat: continue
         s2 = z3.Solver(); s2.set('timeout', 10000)
         s2.add(*GLOBAL_FACTS); s2.add(*hyps); s2.add(den == 0)
         if s2.check() != z3.unsat:
